@@ -477,4 +477,71 @@ theorem make_shared_slice_counterexample :
 example : (mrun false (fun i => if i = 0 then "A".toList else "B".toList) [.append 0, .append 1, .build 0, .build 1]).built =
     [(1, some "B".toList), (0, some "A".toList)] := by decide
 
+/-! ## Redirect chains -/
+
+/-- **No hop of a redirect chain carries a token unless it goes to the original host.**  For every
+    chain of redirect targets, whatever the first request carried: a hop that carries a token `t`
+    goes to the host the client was made for (up to the case of letters), and `t` is the token of
+    the first request — which `header_only_if_configured` ties to the configuration of that host. -/
+theorem redirect_hop_only_original_host (first : Option Str) (orig : Str) (chain : List Str)
+    (stripped : Bool) (k : Nat) (t : Str)
+    (h : (hopHeaders first orig chain stripped)[k]? = some (some t)) :
+    first = some t ∧ ∃ host, chain[k]? = some host ∧ eqFoldHost host orig = true := by
+  induction chain generalizing stripped k with
+  | nil => simp [hopHeaders] at h
+  | cons c rest ih =>
+    cases k with
+    | zero =>
+      simp only [hopHeaders, List.getElem?_cons_zero, Option.some.injEq] at h
+      by_cases hs : (stripped || !(isDomainOrSubdomain c orig)) = true
+      · simp [hs] at h
+      · simp only [hs] at h
+        by_cases he : eqFoldHost c orig = true
+        · simp [he] at h
+          exact ⟨h, c, by simp, he⟩
+        · simp [he] at h
+    | succ k =>
+      simp only [hopHeaders, List.getElem?_cons_succ] at h
+      obtain ⟨h1, host, h2, h3⟩ := ih _ k h
+      exact ⟨h1, host, by simpa using h2, h3⟩
+
+/-- Whole chain: the token configured for `host` (if any) is the only thing any hop can carry, and
+    only hops to `host` carry it — composition with `header_only_if_configured`. -/
+theorem redirect_chain_only_if_configured (bufToken : Str) (file : Option (List Str)) (host t : Str)
+    (r : AuthResult) (h : chainAuth bufToken file host = .ok r) (chain : List Str) (k : Nat)
+    (hk : (hopHeaders r.header host chain false)[k]? = some (some t)) :
+    (∃ hop, chain[k]? = some hop ∧ eqFoldHost hop host = true) ∧
+    ((newTokenProvider bufToken = .ok (.single t) ∧ t = bufToken ∧ r.usingEnv = true) ∨
+     ((t ++ '@' :: host) ∈ splitOn ',' bufToken ∧ r.usingEnv = true) ∨
+     (∃ p, newTokenProvider bufToken = .ok p ∧ remoteToken p host = [] ∧
+       netrcRemoteToken file host = .ok t ∧ r.usingEnv = false)) := by
+  obtain ⟨h1, h2⟩ := redirect_hop_only_original_host r.header host chain false k t hk
+  exact ⟨h2, header_only_if_configured bufToken file host t r h h1⟩
+
+/-- Once net/http has left the site of the original host, nothing is carried any more (sticky). -/
+theorem redirect_stripped_stays_stripped (first : Option Str) (orig : Str) (chain : List Str) :
+    ∀ x ∈ hopHeaders first orig chain true, x = none := by
+  induction chain with
+  | nil => simp [hopHeaders]
+  | cons c rest ih =>
+    intro x hx
+    simp only [hopHeaders, Bool.true_or, List.mem_cons] at hx
+    rcases hx with hx | hx
+    · simpa using hx
+    · exact ih x hx
+
+/-- Why the fix was needed (the code before 018ad7b, net/http alone): a redirect to a SUBDOMAIN of
+    the registry carries the registry's token to that other host. -/
+theorem redirect_subdomain_counterexample :
+    hopHeadersStdlibOnly (some "tk0".toList) "buf.build".toList ["a.b.buf.build".toList] false = [some "tk0".toList] ∧
+    hopHeaders (some "tk0".toList) "buf.build".toList ["a.b.buf.build".toList] false = [none] := by decide
+
+-- non-vacuity: a chain that leaves to a subdomain and comes back carries the token at the original
+-- host again (checkRedirect is per request), while a chain through an unrelated host never does
+example : hopHeaders (some "tk0".toList) "buf.build".toList
+    ["sub.buf.build".toList, "buf.build".toList] false = [none, some "tk0".toList] := by decide
+example : hopHeaders (some "tk0".toList) "buf.build".toList
+    ["evilbuf.build".toList, "buf.build".toList] false = [none, none] := by decide
+example : hopHeaders (some "tk0".toList) "buf.build".toList ["BUF.BUILD".toList] false = [none] := by decide
+
 end BufProofs.C19
